@@ -272,6 +272,11 @@ def run(ctx: Ctx):
     ctx.rule("R01.j", "assembly: every expression is built from its own tree with the model-wide symbol table, printed by the backend printer and returned unmodified (no nan_to_num); the module contains imports, index/init functions, rhs", floor=8)
     assembly(ctx, "R01.j")
 
+    ctx.rule("R01.k", "with removal of unused definitions the rhs still defines every name it reads: liveness is computed from the complete dependency relation (the rules of R12.a/b)", floor=10)
+    from .c12 import liveness_rules
+
+    liveness_rules(ctx, {"a": "R01.k", "b": "R01.k"}, declare=False)
+
     # ---- R01.g time aliases -------------------------------------------------------------------------------
     ctx.rule("R01.g", "`t` and `time` both denote the one time symbol, which is the formal argument t of the generated functions", floor=3)
     time_aliases(ctx, "R01.g")
